@@ -557,6 +557,17 @@ func vC14Gen(e *vEnv, r *vRand) []vCase {
 			default:
 				d = vC14Long + serial*1000
 			}
+			// ... also not after the clock was advanced to an odd instant (aimed one nanosecond beside a
+			// deadline): two timers due at the same instant fire in an order the runtime does not fix
+			for again := true; again; {
+				again = false
+				for _, x := range dues {
+					if x == now+d {
+						d += 1000
+						again = true
+					}
+				}
+			}
 			dues = append(dues, now+d)
 			return d
 		}
